@@ -288,8 +288,14 @@ def c02(tier, seed):
     pipegen_step(res, "C02", tier, seed, "plain20-O0", 12 if q else 1, 250 if q else 4000, enumerate_k=False)
     if not res.harness_error and not q:
         pipegen_step(res, "C02", tier, seed, "plain17", 4, 1500, enumerate_k=False)
-    return driver.finish("C02", tier, seed, "exploration", res, PIPEGEN_RULE + "C02 uses the runs without rejection.",
-                         ["the reference interpreter in pipegen/gen.py encodes the documented routing/recovery/unwrapping rules", "single-threaded deterministic execution; schedules are the business of C01/C03/C04"],
+    if not res.harness_error:
+        # flattening of a returned Future / SharedFuture that another thread fulfils meanwhile (fiber schedules)
+        driver.run_family(res, "C02", "fam_core", "fib-asan", 30000 if q else 1000000, seed, tier, cells="flatten/")
+    return driver.finish("C02", tier, seed, "exploration", res, PIPEGEN_RULE + "C02 uses the runs without rejection. "
+                         "Fiber rows (fam_core flatten/*): a step returns a pending Future / SharedFuture while another thread fulfils it; "
+                         "the continuation behind the step must run exactly once with the inner result on every explored interleaving.",
+                         ["the reference interpreter in pipegen/gen.py encodes the documented routing/recovery/unwrapping rules",
+                          "the generated programs run single-threaded and deterministically; interleavings are explored for the flattening hand-over only (and by C01/C03/C04/C06 for everything else)"],
                          min_distinct=100, t_start=t0)
 
 
